@@ -199,7 +199,7 @@ pub fn run(ctx: &mut Ctx) -> Result<(), Violation> {
         ev.sample(&format!("{}-{}", in_range(c), c.outlen % 3), || json!({"alg": c.alg, "outlen": c.outlen, "pwlen": c.password.len(), "saltlen": c.salt.len(), "ops": c.ops, "mem": c.mem}));
         check(c).map_err(|m| Violation::new("C09", "argon2", m, serde_json::to_value(c).unwrap()))
     })?;
-    let n = ctx.tier.pick(12_000u32, 80_000);
+    let n = ctx.tier.pick(12_000u32, 300_000);
     let max_m = ctx.tier.pick(256usize, 1024);
     let shards: Vec<u64> = (0..ctx.threads as u64).collect();
     let per = n / ctx.threads.max(1) as u32 + 1;
